@@ -835,11 +835,22 @@ func (ip *Interp) enter(fr *frame, b, s *ssa.BasicBlock, st *State) []Outcome {
 	}
 	if n := len(fr.active); n > 0 {
 		cur := fr.active[n-1]
-		if !cur.blocks[s] && !fr.info.panicOnly[s] {
-			ip.undecided(st, fr, firstPos(s), "loop left other than through its header test")
+		if !cur.blocks[s] && !fr.info.panicOnly[s] && !endsInReturn(s) {
+			// a break: the path goes on behind the loop from the middle of some iteration. Like a return from inside
+			// the loop (see the merge in execLoop) it is kept for the may-effect rules only.
+			// (a block that returns is handled by the loop merge alone: the outcome is marked there)
+			st.addEffect(&Effect{Kind: EUndecided, Early: true, Pos: firstPos(s), Fn: fr.fn, Stack: fr.stack, Sites: fr.sites, Note: "loop left other than through its header test"})
 		}
 	}
 	return ip.execFrom(fr, s, 0, b, st)
+}
+
+func endsInReturn(b *ssa.BasicBlock) bool {
+	if len(b.Instrs) == 0 {
+		return false
+	}
+	_, ok := b.Instrs[len(b.Instrs)-1].(*ssa.Return)
+	return ok
 }
 
 func firstPos(b *ssa.BasicBlock) token.Pos {
@@ -1108,11 +1119,37 @@ func (ip *Interp) execLoop(fr *frame, lp *loopInfo, pred *ssa.BasicBlock, st *St
 		return fail("loop test is not an ordering comparison: " + c.String())
 	}
 	coef, other := c.P.coefOf(ctx.K)
-	if other || coef.Sign() >= 0 || !coef.IsInt64() {
+	var symStride, symRest *Poly
+	if other {
+		// A - s*k >= 0 with a loop-invariant symbolic stride s that the path knows to be positive
+		// (`for i := 0; i+ch <= n; i += ch` behind `if ch == 0 { return }`)
+		if sp, rest, ok := c.P.splitLinear(ctx.K); ok {
+			neg := sp.Neg()
+			accAtom := func(x *Term) bool { return x.Op == OpAtom && strings.HasPrefix(x.Name, fmt.Sprintf("acc%d.", ctx.ID)) }
+			// (channel counts are non-negative: every property quantifies over channel counts >= 0)
+			fs := bst.facts.clone()
+			for _, mo := range neg.m {
+				for _, f := range mo.factors {
+					if f.Op == OpAtom && strings.HasSuffix(f.Name, hdrLayout.chSuffix()) {
+						fs.add(Cond{Kind: CGE0, P: normInt(f), Tag: "axiom"})
+					}
+				}
+			}
+			if !neg.mentions(accAtom) && fs.impliesGE0(neg.AddInt(-1)) {
+				symStride, symRest = neg, rest
+			}
+		}
+		if symStride == nil {
+			return fail("loop test is not of the form iv < bound: " + c.String())
+		}
+	} else if coef.Sign() >= 0 || !coef.IsInt64() {
 		return fail("loop test is not of the form iv < bound: " + c.String())
 	}
 	var tripPoly *Poly
-	if coef.Cmp(big.NewInt(-1)) == 0 {
+	if symStride != nil {
+		num := symRest.Add(symStride)
+		tripPoly = normInt(canon(&Term{Op: OpDiv, Typ: intT, Args: []*Term{num.toTerm(), symStride.toTerm()}}))
+	} else if coef.Cmp(big.NewInt(-1)) == 0 {
 		tripPoly = c.P.Add(normInt(ctx.K)).AddInt(1)
 	} else {
 		// A - s*k >= 0 with a constant stride s > 1 (a loop that consumes s elements per iteration):
@@ -1198,8 +1235,42 @@ func (ip *Interp) execLoop(fr *frame, lp *loopInfo, pred *ssa.BasicBlock, st *St
 			}
 		case OPanic, OAbort:
 			result = append(result, o)
+		case ORet:
+			// a search loop (`for ... { if found { return ... } }`): the path leaves the function in some iteration k
+			// with 0 <= k < trip (both facts are in its state) after the effects of the iterations before it, which
+			// the loop effects (quantified over all iterations) over-approximate. That is exact enough for the
+			// may-effect rules (who writes what, divisions, allocations, bounds) but not for the rules that compare
+			// written regions: the outcome is kept and marked, and only rules that say so accept the mark.
+			for _, ob := range outs {
+				if ob.Kind != OBack {
+					continue
+				}
+				for _, e := range ob.St.effects {
+					if !seen[e] {
+						seen[e] = true
+						post.effects = append(post.effects, e)
+					}
+				}
+			}
+			est := o.St
+			have := map[*Effect]bool{}
+			for _, e := range est.effects {
+				have[e] = true
+			}
+			for _, e := range post.effects {
+				if !have[e] {
+					est.effects = append(est.effects, e)
+				}
+			}
+			var stack []*ssa.Function
+			var sites []token.Pos
+			stack, sites = fr.stack, fr.sites
+			est.addEffect(&Effect{Kind: EUndecided, Early: true, Pos: ctx.Pos, Fn: fr.fn, Stack: stack, Sites: sites, Note: "non-canonical loop: return from inside the loop"})
+			est.loops = append([]*LoopCtx{}, st.loops...)
+			est.body = st.body
+			result = append(result, o)
 		default:
-			ip.undecided(post, fr, ctx.Pos, "non-canonical loop: return from inside the loop")
+			ip.undecided(post, fr, ctx.Pos, "non-canonical loop: unexpected outcome inside the loop")
 		}
 	}
 	if len(outs) == 0 {
@@ -1564,6 +1635,16 @@ func (ip *Interp) step(fr *frame, in ssa.Instruction, st *State) {
 			st.addEffect(&Effect{Kind: EAlloc, Pos: x.Pos(), Fn: fr.fn, Stack: fr.stack, Sites: fr.sites, Obj: o, Note: "new " + typeKey(pt.Elem()) + " (" + x.Comment + ")", Heap: true, Typ: pt.Elem()})
 		}
 	case *ssa.BinOp:
+		if x.Op == token.EQL || x.Op == token.NEQ {
+			// a pointer to a known object (a receiver, an argument, a fresh object) compared with nil: the entry
+			// objects are the buffers the properties quantify over, none of them is the nil pointer
+			pa, oka := ip.value(fr, x.X, st).(PtrV)
+			pb, okb := ip.value(fr, x.Y, st).(PtrV)
+			if oka && okb && (pa.Nil != pb.Nil) && ((pa.Nil && pb.Obj != nil) || (pb.Nil && pa.Obj != nil)) {
+				fr.env[x] = mkConst(constant.MakeBool(x.Op == token.NEQ), x.Type())
+				return
+			}
+		}
 		a, b := ip.term(fr, x.X, st), ip.term(fr, x.Y, st)
 		r := mkBin(x.Op, a, b, x.Type())
 		r.Pos = x.Pos()
@@ -2205,6 +2286,14 @@ func (ip *Interp) external(fr *frame, callee *ssa.Function, args []Val, resT typ
 	}
 	switch name {
 	case "math.Ceil", "math.Floor", "math.Round", "math.Trunc", "math.RoundToEven", "math.Abs":
+		if t, ok := args[0].(*Term); ok {
+			r := mkCall(name, resT, t)
+			r.Pos = pos
+			return r
+		}
+	case "math.IsNaN":
+		// a pure predicate of one float: kept as a term (the kernel evaluators know that NaN is outside the
+		// domain of the numeric properties, see splitF)
 		if t, ok := args[0].(*Term); ok {
 			r := mkCall(name, resT, t)
 			r.Pos = pos
